@@ -1104,10 +1104,10 @@ class HistEngine(Engine):
 
     def tiers(self, prop):
         if prop == "C17":
-            return {"quick": dict(cases=1600, per_batch=25, budget_s=200, batch_timeout=300, min_budget_s=90),
-                    "thorough": dict(cases=40000, per_batch=50, budget_s=1200, batch_timeout=600, min_budget_s=180)}
-        return {"quick": dict(cases=1920, per_batch=30, budget_s=200, batch_timeout=300, min_budget_s=90),
-                "thorough": dict(cases=48000, per_batch=60, budget_s=1200, batch_timeout=600, min_budget_s=180)}
+            return {"quick": dict(cases=4000, per_batch=50, budget_s=200, batch_timeout=300, min_budget_s=90),
+                    "thorough": dict(cases=160000, per_batch=100, budget_s=1500, batch_timeout=600, min_budget_s=180)}
+        return {"quick": dict(cases=4800, per_batch=50, budget_s=200, batch_timeout=300, min_budget_s=90),
+                "thorough": dict(cases=160000, per_batch=100, budget_s=1500, batch_timeout=600, min_budget_s=180)}
 
     def gen(self, prop, rng, tier):
         if prop == "C17":
